@@ -45,6 +45,7 @@ class Case:
         i = self.next_id; self.next_id += 1
         self.cmds.append(('flushbt', t, i, lg, 32)); return i
     def add_filter(self, k, m): self.cmds.append(('addfilter', k, m))
+    def shrink(self, t, c): self.cmds.append(('shrink', t, c))     # shrink_thread_local_queue(c) + reported capacity
     def set_level(self, l, v): self.cmds.append(('setlevel', l, v))
     def set_sink_level(self, k, v): self.cmds.append(('setsinklevel', k, v))
     def tick(self, d): self.cmds.append(('tick', d))
@@ -65,6 +66,7 @@ class Case:
         if k == 'initbt': return [11, c[1], c[2], c[3], c[4], c[5], c[6]]
         if k == 'flushbt': return [12, c[1], c[2], c[3], c[4]]
         if k == 'addfilter': return [13, c[1], c[2]]
+        if k == 'shrink': return [14, c[1], c[2]]
         raise ValueError(k)
 
     def line(self):
@@ -79,7 +81,8 @@ class Case:
         btr = 0 if f.get('bt_reset_index') == 'false' else 1
         btg = 0 if f.get('bt_cap0_guard') == 'false' else 1
         btc = 0 if f.get('be_bt_replay_catch') == 'false' else 1
-        out = ['be', self.dropping, self.capk, batch_of(C), ob, od, self.tinit, self.soft, self.hard, self.grace, bits, rf2, ca, rfirst, btr, btg, btc, self.fiv, CLOCK0]
+        follow = 0 if f.get('be_unbounded_read_follows_chain') == 'false' else 1
+        out = ['be', self.dropping, self.capk, batch_of(C), ob, od, self.tinit, self.soft, self.hard, self.grace, bits, rf2, ca, rfirst, btr, btg, btc, self.fiv, follow, CLOCK0]
         out.append(len(self.loggers))
         for lvl, ks in self.loggers: out += [lvl, len(ks)] + list(ks)
         out.append(len(self.sinks))
@@ -117,6 +120,7 @@ def parse_obs(line):
         elif k == 6: out.append(('pollend',)); i += 1
         elif k == 7: out.append(('ctx', t[i + 1])); i += 2
         elif k == 8: out.append(('inj', t[i + 1], t[i + 2])); i += 3
+        elif k == 9: out.append(('cap', t[i + 1])); i += 2
         else: out.append(('?', k)); i += 1
     return out
 
@@ -135,7 +139,7 @@ def align(case, obs):
     pos = 0
     def next_res():
         nonlocal pos
-        while pos < len(obs) and obs[pos][0] not in ('res', 'ctx', 'pollend'):
+        while pos < len(obs) and obs[pos][0] not in ('res', 'ctx', 'pollend', 'cap'):
             pos += 1
         return pos
     for c in case.cmds:
@@ -144,7 +148,7 @@ def align(case, obs):
             # injected commands run only when their yield point is reached: the stream says which ones fired ('inj' tokens)
             pend = []
             while True:
-                while pos < len(obs) and obs[pos][0] not in ('res', 'ctx', 'pollend', 'inj'):
+                while pos < len(obs) and obs[pos][0] not in ('res', 'ctx', 'pollend', 'inj', 'cap'):
                     pos += 1
                 p = pos
                 if p >= len(obs): break
@@ -152,13 +156,13 @@ def align(case, obs):
                 if obs[p][0] == 'inj':
                     fired = [s for (y, v, cs) in c[1] if (y, v) == (obs[p][1], obs[p][2]) for s in cs]
                     self_fired.append((id(c), obs[p][1], obs[p][2]))
-                    pend += [s for s in fired if s[0] in ('log', 'resume', 'flush', 'exit', 'initbt', 'flushbt')]
-                elif obs[p][0] == 'res' and pend:
+                    pend += [s for s in fired if s[0] in ('log', 'resume', 'flush', 'exit', 'initbt', 'flushbt', 'shrink')]
+                elif obs[p][0] in ('res', 'cap') and pend:
                     res.append((pend.pop(0), obs[p][1], p))
                 pos = p + 1
-        elif c[0] in ('log', 'resume', 'flush', 'exit', 'initbt', 'flushbt'):
+        elif c[0] in ('log', 'resume', 'flush', 'exit', 'initbt', 'flushbt', 'shrink'):
             p = next_res()
-            if p < len(obs) and obs[p][0] == 'res':
+            if p < len(obs) and obs[p][0] in ('res', 'cap'):
                 res.append((c, obs[p][1], p)); pos = p + 1
         elif c[0] == 'ctx':
             p = next_res()
@@ -182,6 +186,7 @@ class Track:
         self.ctx = []        # (pos, n)
         self.exits = []      # (pos, thread)
         self.ctl = []        # (pos, kind, cmd) completed backtrace control requests
+        self.shrinks = []    # (pos, thread, requested capacity, reported capacity or None when the thread was busy)
         self.ok = obs is not None
         if not self.ok: return
         for p, o in enumerate(obs):
@@ -201,7 +206,7 @@ class Track:
             if kind == 'tick': clock += c[1]; return
             if kind == 'setlevel': levels[c[1]] = c[2]; return
             if kind in ('setsinklevel',): return
-            if kind in ('log', 'resume', 'flush', 'exit', 'ctx', 'initbt', 'flushbt'):
+            if kind in ('log', 'resume', 'flush', 'exit', 'ctx', 'initbt', 'flushbt', 'shrink'):
                 if k >= len(al) or al[k][0] is not c:
                     return
                 code, pos = al[k][1], al[k][2]; k += 1
@@ -237,6 +242,8 @@ class Track:
                     if t in pending or t in dead: pass
                     elif code == 2: pending[t] = ('ctl', c[2])
                     else: self.ctl.append((pos, kind, c))
+                elif kind == 'shrink':
+                    self.shrinks.append((pos, c[1], c[2], code if obs[pos][0] == 'cap' else None))
                 elif kind == 'exit':
                     t = c[1]
                     if code == 1: dead.add(t); self.exits.append((pos, t))
